@@ -178,6 +178,7 @@ static int transition(const uint16_t *hist, int d, int opi, char *ckey, int verb
     qlisttbl_t *t = qlisttbl(LIBOPT);
     char after[64];
     for (int i = 0; i < d; i++) { snprintf(after, sizeof after, "step %d (op %d)", i, hist[i]); apply(t, &m, &OPS[hist[i]], verbose, after); if (verbose) observe(t, &m, after); }
+    vc_asan_check();   /* reports raised by the history prefix belong to the transitions that ended in those ops */
     snprintf(after, sizeof after, "op %d", opi);
     if (apply(t, &m, &OPS[opi], 1, after) == 1) { t->free(t); return 1; }
     canon(t, ckey, after);
